@@ -38,6 +38,18 @@ def scalar_items(tier: str, seed: int, sizes_quick: Dict[int, int], sizes_thorou
 
     for fam, term in G.special_families():
         add(fam, term)
+    for fam, term in G.same_field_chains():
+        add(fam, term)
+    before = len(items)
+    for fam, term in G.deep_bool((2, 3, 4) if quick else (2, 3, 4), G.bool_atoms(), rng, {3: 160, 4: 90} if quick else {4: 1200}):
+        add(fam, term)
+    for fam, term in G.deep_arith((2, 3), rng, {2: 40, 3: 60} if quick else {3: 600}):
+        add(fam, term)
+    for it in items[before:]:
+        it["extra_alphabet"] = "()"
+    for fam, term, extra in G.compact_family():
+        add(fam, term)
+        items[-1]["extra_alphabet"] = extra
     n_special = len(items)
     reduced = G.Cfg(G.scalar_leaves(["a", "%"]))
     for n in (0, 1):
